@@ -99,8 +99,13 @@ theorem step_tok (rest : Str) (pos : Nat) (prev : Option Ch) (ctx : Ctx) (e : Ea
       | some e1 => simp [h2] at h; obtain ⟨rfl, _⟩ := h; exact nl (repeaterNumber_tok h2)
       | none =>
       simp only [h2] at h
-      cases h3 : repeater rest with
-      | some e1 => simp [h3] at h; obtain ⟨rfl, _⟩ := h; exact nl (repeater_tok h3)
+      cases h3 : repeaterCtx rest ctx with
+      | some e1 =>
+        have h3' : repeater rest = some e1 := by
+          unfold repeaterCtx at h3; split at h3
+          · cases h3
+          · exact h3
+        simp [h3] at h; obtain ⟨rfl, _⟩ := h; exact nl (repeater_tok h3')
       | none =>
       simp only [h3] at h
       cases h4 : whiteSpace rest with
@@ -165,15 +170,17 @@ theorem loop_LitsNE : ∀ (fuel : Nat) (rest : Str) (pos : Nat) (prev : Option C
 theorem tokenize_LitsNE (s : Str) (ts : List Tok) (h : tokenize s = .ok ts) (hl : s.getLast? ≠ some 92) : LitsNE ts :=
   loop_LitsNE _ s 0 none {} [] ts h hl (by intro t ht; cases ht)
 
-/-- **C07, tokenizer + parser stages, partial (pinned code)**: for every string not ending in a backslash -/
-theorem tokenize_parse_total (jsx : Bool) (s : Str) (hl : s.getLast? ≠ some 92) :
+/-- **C07, tokenizer + parser stages**: for EVERY string and both JSX modes: a scanner error inside the input, or a token
+    list on which the parser returns a forest or a token error — never an internal error, never out of fuel. (Before the
+    repair of the JSX name test this needed the hypothesis "does not end with a backslash".) -/
+theorem tokenize_parse_total (jsx : Bool) (s : Str) :
     match tokenize s with
     | .ok ts => Res (parseTokens jsx ts) (fun _ => True)
     | .error (.scanner p) => p ≤ s.length
     | .error .fuel => False := by
   have ht := tokenize_tiles s
   cases h : tokenize s with
-  | ok ts => exact parseTokens_total jsx ts (tokenize_LitsNE s ts h hl)
+  | ok ts => exact parseTokens_total jsx ts
   | error e =>
     rw [h] at ht
     cases e with
